@@ -7,7 +7,7 @@ import toolz
 
 from dask_array._new_collection import new_collection
 from dask_array._blockwise import Blockwise, Elemwise
-from dask_array._core_utils import _normalize_out, handle_out, is_scalar_for_elemwise
+from dask_array._core_utils import _normalize_out, handle_out, is_scalar_for_elemwise, snapshot_collections
 
 
 def blockwise(
@@ -198,7 +198,7 @@ def blockwise(
             align_arrays,
             concatenate,
             meta,
-            kwargs,
+            snapshot_collections(kwargs),
             *normalized_args,
         )
     )
@@ -267,7 +267,7 @@ def elemwise(op, *args, out=None, where=True, dtype=None, name=None, **kwargs):
     # Scalars are kept as-is to preserve proper dtype behavior (e.g., 2.0 * float32_array = float32)
     args = [asanyarray(a) if not is_scalar_for_elemwise(a) else a for a in args]
 
-    user_kwargs = dict(kwargs) if kwargs else None
+    user_kwargs = snapshot_collections(dict(kwargs)) if kwargs else None
 
     result = new_collection(Elemwise(op, dtype, name, where, out, user_kwargs, *args))
 
